@@ -76,7 +76,11 @@ class Store:
         out = {}
         for n in sorted(os.listdir(self.base)):
             p = os.path.join(self.base, n)
-            if os.path.isdir(p):
+            if os.path.islink(p):
+                # a symbolic link in the base directory (the store never makes one): recorded as an entry
+                # whose content names the link, never followed
+                out[n] = b"\x00symlink -> " + os.readlink(p).encode("utf-8", "surrogateescape")
+            elif os.path.isdir(p):
                 out[n] = {k: open(os.path.join(p, k), "rb").read() for k in sorted(os.listdir(p))}
             else:
                 out[n] = open(p, "rb").read()
